@@ -301,6 +301,20 @@ class Fn:
 
     def dominates(self, a, b):
         d = self.dominators()
+        if b in d and a in d[b]:
+            return True
+        # a body with helpers spliced in has extra edges that no execution takes (the helper's `return Err(..)` followed by the caller's `?` "continuing");
+        # there, "a dominates b" is decided on feasible paths.  Bodies without inlined code are not affected.
+        if b in d and self.raw.get("inlined") and a != b:
+            cache = self.__dict__.setdefault("_feasible_dom", {})
+            if (a, b) not in cache:
+                from .flow import feasible_reach_without
+                cache[(a, b)] = not feasible_reach_without(self, [b], [a])
+            return cache[(a, b)]
+        return False
+
+    def dominates_cfg(self, a, b):
+        d = self.dominators()
         return b in d and a in d[b]
 
     def back_edges(self):
@@ -353,6 +367,16 @@ class Fn:
                 while x is not None:
                     path.append(x)
                     x = prev[x]
+                if self.raw.get("inlined"):
+                    # the witness may be a path no execution takes (see dominates): decide on feasible paths
+                    from .flow import feasible_reach_without
+                    rets = [r for r in self.live_blocks() if self.term(r)["t"] == "return"]
+                    key = ("app", start, frozenset(targets))
+                    cache = self.__dict__.setdefault("_feasible_dom", {})
+                    if key not in cache:
+                        cache[key] = not feasible_reach_without(self, rets, targets, start=start)
+                    if cache[key]:
+                        return True, None
                 return False, path[::-1]
             for s in self.succ(b):
                 if s in targets or s in prev:
